@@ -78,7 +78,7 @@ const abortSignal = -1000
 type thread struct {
 	id      int
 	epoch   uint64
-	wake    chan int
+	wake    waker
 	pend    op
 	parked  bool
 	baton   bool // sender of a rendezvous waiting to continue after its partner's step
@@ -122,6 +122,7 @@ type ExecResult struct {
 	Sends   []int    // sender thread of every granted channel send, in order (buffered or rendezvous)
 }
 
+//go:norace
 func (x *ExecResult) Choices() []int {
 	r := make([]int, len(x.Trace))
 	for i, d := range x.Trace {
@@ -131,7 +132,7 @@ func (x *ExecResult) Choices() []int {
 }
 
 type sched struct {
-	mu         sync.Mutex
+	lk         schedLock
 	epoch      uint64
 	threads    []*thread
 	running    int
@@ -139,7 +140,7 @@ type sched struct {
 	lastRan    [2]int
 	timers     []*vtimer
 	timerSeq   int
-	closed     map[unsafe.Pointer]bool
+	closed     []unsafe.Pointer
 	prefix     []int
 	res        *ExecResult
 	finished   bool
@@ -156,14 +157,12 @@ type sched struct {
 	pendSleep []sleepEntry
 	chosenSig sig
 	havePend  bool
-	ctxNodes  map[unsafe.Pointer]*ctxNode
+	ctxNodes  []ctxEntry
 }
 
 var (
 	s        = &sched{}
-	active   atomic.Bool
-	tmapMu   sync.RWMutex
-	byG      = map[unsafe.Pointer]*thread{}
+	active   activeFlag
 	toolFail = func(msg string) {
 		fmt.Fprintln(os.Stderr, "TOOL-ERROR:", msg)
 		buf := make([]byte, 1<<20)
@@ -173,21 +172,22 @@ var (
 	}
 )
 
+//go:norace
 func cur() *thread {
-	if !active.Load() {
+	if !active.get() {
 		return nil
 	}
-	g := getg()
-	tmapMu.RLock()
-	t := byG[g]
-	tmapMu.RUnlock()
-	return t
+	return lookupThread(getg())
 }
 
 // Active reports whether the caller is a thread of a running exploration.
+//
+//go:norace
 func Active() bool { return cur() != nil }
 
 // ThreadID returns the caller's thread id (root = 0) or -1.
+//
+//go:norace
 func ThreadID() int {
 	if t := cur(); t != nil {
 		return t.id
@@ -195,6 +195,7 @@ func ThreadID() int {
 	return -1
 }
 
+//go:norace
 func callerSite(skip int) string {
 	if !s.describe {
 		return ""
@@ -219,13 +220,15 @@ func callerSite(skip int) string {
 
 // park blocks the calling thread at a scheduling point until the scheduler
 // grants the operation; returns the selected case for opSelect.
+//
+//go:norace
 func (t *thread) park(o op) int {
 	if s.describe {
 		o.site = callerSite(3)
 	}
-	s.mu.Lock()
+	s.lk.lock()
 	if t.aborted || t.epoch != s.epoch {
-		s.mu.Unlock()
+		s.lk.unlock()
 		runtime.Goexit()
 	}
 	t.pend = o
@@ -234,17 +237,18 @@ func (t *thread) park(o op) int {
 	if s.running == 0 {
 		s.decide()
 	}
-	s.mu.Unlock()
-	r := <-t.wake
+	s.lk.unlock()
+	r := t.wake.get()
 	if r == abortSignal {
 		runtime.Goexit()
 	}
 	return r
 }
 
+//go:norace
 func (s *sched) spawn(parent *thread, fn func(), name string) *thread {
 	// s.mu held
-	t := &thread{id: len(s.threads), epoch: s.epoch, wake: make(chan int, 4), exited: make(chan struct{}), parked: true, name: name}
+	t := &thread{id: len(s.threads), epoch: s.epoch, exited: make(chan struct{}), parked: true, name: name}
 	t.pend = op{kind: opStart}
 	if parent == nil {
 		t.key = "0"
@@ -257,44 +261,49 @@ func (s *sched) spawn(parent *thread, fn func(), name string) *thread {
 	}
 	s.threads = append(s.threads, t)
 	s.all.Add(1)
-	go func() {
-		g := getg()
-		tmapMu.Lock()
-		byG[g] = t
-		tmapMu.Unlock()
-		defer func() {
-			r := recover()
-			tmapMu.Lock()
-			delete(byG, g)
-			tmapMu.Unlock()
-			s.mu.Lock()
-			t.done = true
-			if t.epoch == s.epoch && !t.aborted && !s.finished {
-				if r != nil {
-					buf := make([]byte, 16<<10)
-					n := runtime.Stack(buf, false)
-					s.finish("panic", fmt.Sprintf("thread %d panicked: %v at %s", t.id, r, trimStack(string(buf[:n]))))
-				} else if t.id == 0 {
-					s.finish("ok", "")
-				} else {
-					s.running--
-					if s.running == 0 {
-						s.decide()
-					}
-				}
-			}
-			s.mu.Unlock()
-			close(t.exited)
-			s.all.Done()
-		}()
-		if r := <-t.wake; r == abortSignal {
-			return
-		}
-		fn()
-	}()
+	go s.threadMain(t, fn)
 	return t
 }
 
+// threadMain is the body of every controlled goroutine.
+//
+//go:norace
+func (s *sched) threadMain(t *thread, fn func()) {
+	g := getg()
+	registerThread(g, t)
+	defer s.threadExit(t, g)
+	if r := t.wake.get(); r == abortSignal {
+		return
+	}
+	fn()
+}
+
+//go:norace
+func (s *sched) threadExit(t *thread, g unsafe.Pointer) {
+	r := recover()
+	unregisterThread(g)
+	s.lk.lock()
+	t.done = true
+	if t.epoch == s.epoch && !t.aborted && !s.finished {
+		if r != nil {
+			buf := make([]byte, 16<<10)
+			n := runtime.Stack(buf, false)
+			s.finish("panic", fmt.Sprintf("thread %d panicked: %v at %s", t.id, r, trimStack(string(buf[:n]))))
+		} else if t.id == 0 {
+			s.finish("ok", "")
+		} else {
+			s.running--
+			if s.running == 0 {
+				s.decide()
+			}
+		}
+	}
+	s.lk.unlock()
+	close(t.exited)
+	s.all.Done()
+}
+
+//go:norace
 func trimStack(st string) string {
 	// keep "function file:line" frames only: no goroutine ids, no argument words
 	lines := strings.Split(st, "\n")
@@ -329,6 +338,8 @@ func trimStack(st string) string {
 }
 
 // finish ends the execution: everything still alive is aborted. s.mu held.
+//
+//go:norace
 func (s *sched) finish(status, msg string) {
 	if s.finished {
 		return
@@ -348,6 +359,7 @@ func (s *sched) finish(status, msg string) {
 	close(s.doneCh)
 }
 
+//go:norace
 func (s *sched) descThread(t *thread) string {
 	d := fmt.Sprintf("T%d", t.id)
 	if t.name != "" {
@@ -362,6 +374,7 @@ func (s *sched) descThread(t *thread) string {
 	return d
 }
 
+//go:norace
 func (s *sched) descOp(o *op) string {
 	d := opNames[o.kind]
 	if o.kind == opSelect {
@@ -382,6 +395,7 @@ type trans struct {
 	ca, cb int // selected case index for a / b (-1: not a select, or default)
 }
 
+//go:norace
 func (s *sched) chanLen(c *Case) int {
 	if c.cap == 0 {
 		return 0
@@ -389,11 +403,12 @@ func (s *sched) chanLen(c *Case) int {
 	return reflect.ValueOf(c.chv).Len()
 }
 
+//go:norace
 func (s *sched) sendAlts(out []trans, t *thread, ci int, c *Case) []trans {
 	if c.ch == nil {
 		return out
 	}
-	if s.closed[c.ch] {
+	if s.isClosed(c.ch) {
 		return append(out, trans{t.id, -1, ci, -1})
 	}
 	if c.cap > 0 {
@@ -423,18 +438,21 @@ func (s *sched) sendAlts(out []trans, t *thread, ci int, c *Case) []trans {
 	return out
 }
 
+//go:norace
 func (s *sched) recvAlts(out []trans, t *thread, ci int, c *Case) []trans {
 	if c.ch == nil {
 		return out
 	}
-	if s.closed[c.ch] || (c.cap > 0 && s.chanLen(c) > 0) {
+	if s.isClosed(c.ch) || (c.cap > 0 && s.chanLen(c) > 0) {
 		return append(out, trans{t.id, -1, ci, -1})
 	}
 	return out // unbuffered rendezvous is generated from the sender's side
 }
 
+//go:norace
 func ctxDone(ctx context.Context) bool { return ctx != nil && ctx.Err() != nil }
 
+//go:norace
 func (s *sched) enabled() []trans {
 	var out []trans
 	for _, t := range s.threads {
@@ -495,6 +513,8 @@ func (s *sched) enabled() []trans {
 // selectHasPartner: a select with default whose recv case could pair with a parked
 // sender is not "nothing ready": Go would take the recv case. (Sender-side
 // enumeration lists that transition.)
+//
+//go:norace
 func (s *sched) selectHasPartner(t *thread) bool {
 	for k := range t.pend.cases {
 		c := &t.pend.cases[k]
@@ -523,6 +543,7 @@ func (s *sched) selectHasPartner(t *thread) bool {
 	return false
 }
 
+//go:norace
 func (s *sched) involvesLast(tr trans) bool {
 	for _, l := range s.lastRan {
 		if l >= 0 && (tr.a == l || tr.b == l) {
@@ -560,6 +581,32 @@ type ctxNode struct {
 	parent *ctxNode
 }
 
+type ctxEntry struct {
+	p unsafe.Pointer
+	n *ctxNode
+}
+
+//go:norace
+func (s *sched) ctxNode(p unsafe.Pointer) *ctxNode {
+	for i := range s.ctxNodes {
+		if s.ctxNodes[i].p == p {
+			return s.ctxNodes[i].n
+		}
+	}
+	return nil
+}
+
+//go:norace
+func (s *sched) isClosed(p unsafe.Pointer) bool {
+	for _, c := range s.closed {
+		if c == p {
+			return true
+		}
+	}
+	return false
+}
+
+//go:norace
 func donePtr(ctx context.Context) unsafe.Pointer {
 	if ctx == nil {
 		return nil
@@ -574,12 +621,14 @@ func donePtr(ctx context.Context) unsafe.Pointer {
 // ctxObjs: what an operation on ctx touches. Reading (Done, Err) depends on the
 // context and all its ancestors; cancel writes the context itself. A context that
 // was not created through verifrt is conservatively global.
+//
+//go:norace
 func (s *sched) ctxObjs(ctx context.Context, write bool, g *sig) {
 	p := donePtr(ctx)
 	if p == nil {
 		return
 	}
-	n := s.ctxNodes[p]
+	n := s.ctxNode(p)
 	if n == nil {
 		g.global = true
 		return
@@ -592,14 +641,16 @@ func (s *sched) ctxObjs(ctx context.Context, write bool, g *sig) {
 	}
 }
 
+//go:norace
 func (s *sched) registerCtx(ctx, parent context.Context) {
 	n := &ctxNode{}
 	if pp := donePtr(parent); pp != nil {
-		n.parent = s.ctxNodes[pp]
+		n.parent = s.ctxNode(pp)
 	}
-	s.ctxNodes[donePtr(ctx)] = n
+	s.ctxNodes = append(s.ctxNodes, ctxEntry{donePtr(ctx), n})
 }
 
+//go:norace
 func (s *sched) caseObj(c *Case, g *sig) {
 	switch c.dir {
 	case dirDone:
@@ -611,44 +662,48 @@ func (s *sched) caseObj(c *Case, g *sig) {
 	}
 }
 
-func (s *sched) sigOf(tr trans) sig {
-	var g sig
-	add := func(t *thread, ci int) {
-		o := &t.pend
-		switch o.kind {
-		case opLock:
-			g.objs = append(g.objs, objRef{unsafe.Pointer(o.mu), true})
-		case opRLock:
-			g.objs = append(g.objs, objRef{unsafe.Pointer(o.rw), false})
-		case opWLock, opWLockAnnounce:
-			g.objs = append(g.objs, objRef{unsafe.Pointer(o.rw), true})
-		case opWait:
-			g.objs = append(g.objs, objRef{unsafe.Pointer(o.wg), false})
-		case opSend, opRecv, opClose:
-			s.caseObj(&o.c, &g)
-		case opDone, opCtxErr:
-			s.ctxObjs(o.c.ctx, false, &g)
-		case opCancel:
-			s.ctxObjs(o.c.ctx, true, &g)
-		case opStamp:
-			g.objs = append(g.objs, objRef{unsafe.Pointer(&clockObj), true})
-		case opSelect:
-			if ci >= 0 {
-				s.caseObj(&o.cases[ci], &g)
-			} else {
-				for k := range o.cases {
-					s.caseObj(&o.cases[k], &g)
-				}
+//go:norace
+func (s *sched) sigAdd(g *sig, t *thread, ci int) {
+	o := &t.pend
+	switch o.kind {
+	case opLock:
+		g.objs = append(g.objs, objRef{unsafe.Pointer(o.mu), true})
+	case opRLock:
+		g.objs = append(g.objs, objRef{unsafe.Pointer(o.rw), false})
+	case opWLock, opWLockAnnounce:
+		g.objs = append(g.objs, objRef{unsafe.Pointer(o.rw), true})
+	case opWait:
+		g.objs = append(g.objs, objRef{unsafe.Pointer(o.wg), false})
+	case opSend, opRecv, opClose:
+		s.caseObj(&o.c, g)
+	case opDone, opCtxErr:
+		s.ctxObjs(o.c.ctx, false, g)
+	case opCancel:
+		s.ctxObjs(o.c.ctx, true, g)
+	case opStamp:
+		g.objs = append(g.objs, objRef{unsafe.Pointer(&clockObj), true})
+	case opSelect:
+		if ci >= 0 {
+			s.caseObj(&o.cases[ci], g)
+		} else {
+			for k := range o.cases {
+				s.caseObj(&o.cases[k], g)
 			}
 		}
 	}
-	add(s.threads[tr.a], tr.ca)
+}
+
+//go:norace
+func (s *sched) sigOf(tr trans) sig {
+	var g sig
+	s.sigAdd(&g, s.threads[tr.a], tr.ca)
 	if tr.b >= 0 {
-		add(s.threads[tr.b], tr.cb)
+		s.sigAdd(&g, s.threads[tr.b], tr.cb)
 	}
 	return g
 }
 
+//go:norace
 func dependent(e *sleepEntry, ka, kb string, g *sig) bool {
 	if e.ka == ka || (kb != "" && (e.ka == kb || e.kb == kb)) || (e.kb != "" && e.kb == ka) {
 		return true
@@ -669,12 +724,15 @@ func dependent(e *sleepEntry, ka, kb string, g *sig) bool {
 // touch records an object modified by a non-point operation of the running step
 // (WaitGroup.Add/Done): it can disable a sleeping transition, so it counts as part
 // of the executed transition's footprint.
+//
+//go:norace
 func (s *sched) touch(p unsafe.Pointer) {
 	if s.sleepMode && s.havePend {
 		s.chosenSig.objs = append(s.chosenSig.objs, objRef{p, true})
 	}
 }
 
+//go:norace
 func (s *sched) keyOf(id int) string {
 	if id < 0 {
 		return ""
@@ -683,6 +741,8 @@ func (s *sched) keyOf(id int) string {
 }
 
 // decide is called with s.mu held when no thread is running.
+//
+//go:norace
 func (s *sched) decide() {
 	if s.finished {
 		return
@@ -691,7 +751,7 @@ func (s *sched) decide() {
 		s.forced = nil
 		f.baton = false
 		s.running++
-		f.wake <- 0
+		f.wake.put(0)
 		return
 	}
 	// A thread's first step (from its start to its first scheduling point) touches
@@ -702,7 +762,7 @@ func (s *sched) decide() {
 		if t.parked && !t.done && t.pend.kind == opStart {
 			t.parked = false
 			s.running++
-			t.wake <- 0
+			t.wake.put(0)
 			return
 		}
 	}
@@ -735,10 +795,13 @@ func (s *sched) decide() {
 			s.lastRan = [2]int{idle.id, -1}
 			idle.parked = false
 			s.running++
-			idle.wake <- 0
+			idle.wake.put(0)
 			if s.sleepMode {
 				// waking an idle waiter is not a choice and conflicts with nothing that is enabled
-				s.pendSleep = append(s.pendSleep[:0], s.sleep...)
+				s.pendSleep = s.pendSleep[:0]
+				for i := range s.sleep {
+					s.pendSleep = append(s.pendSleep, s.sleep[i])
+				}
 				s.chosenSig = sig{}
 				s.havePend = true
 			}
@@ -759,10 +822,21 @@ func (s *sched) decide() {
 		s.finish("deadlock", "no enabled transition: "+strings.Join(bl, "; "))
 		return
 	}
-	// canonical order: transitions involving a thread of the previous step first
-	sort.SliceStable(trs, func(i, j int) bool {
-		return s.involvesLast(trs[i]) && !s.involvesLast(trs[j])
-	})
+	// canonical order: transitions involving a thread of the previous step first (stable partition)
+	{
+		ordered := make([]trans, 0, len(trs))
+		for _, tr := range trs {
+			if s.involvesLast(tr) {
+				ordered = append(ordered, tr)
+			}
+		}
+		for _, tr := range trs {
+			if !s.involvesLast(tr) {
+				ordered = append(ordered, tr)
+			}
+		}
+		trs = ordered
+	}
 	nfree := 0
 	for _, tr := range trs {
 		if s.involvesLast(tr) {
@@ -821,7 +895,10 @@ func (s *sched) decide() {
 	if s.sleepMode {
 		// earlier awake siblings have been (or will be, by another shard) explored from
 		// this state: they sleep in the chosen branch as long as they stay independent
-		s.pendSleep = append(s.pendSleep[:0], s.sleep...)
+		s.pendSleep = s.pendSleep[:0]
+		for i := range s.sleep {
+			s.pendSleep = append(s.pendSleep, s.sleep[i])
+		}
 		for k := 0; k < c; k++ {
 			if awake&(1<<uint(k)) != 0 {
 				tr := trs[k]
@@ -836,6 +913,7 @@ func (s *sched) decide() {
 
 var maxDecisions = 100000
 
+//go:norace
 func (s *sched) descTrans(tr trans) string {
 	a := s.threads[tr.a]
 	d := fmt.Sprintf("T%d %s", a.id, s.descOp(&a.pend))
@@ -854,6 +932,7 @@ func (s *sched) descTrans(tr trans) string {
 	return d
 }
 
+//go:norace
 func (s *sched) apply(tr trans) {
 	s.res.Steps++
 	a := s.threads[tr.a]
@@ -866,12 +945,12 @@ func (s *sched) apply(tr trans) {
 		s.res.Sends = append(s.res.Sends, tr.a)
 		b.parked = false
 		s.running++
-		b.wake <- tr.cb
+		b.wake.put(tr.cb)
 		a.parked = false
 		a.baton = true
 		a.rdv = true
 		s.forced = a
-		a.wake <- tr.ca
+		a.wake.put(tr.ca)
 		return
 	}
 	o := &a.pend
@@ -888,7 +967,7 @@ func (s *sched) apply(tr trans) {
 	case opWLockAnnounce:
 		o.rw.pendingW++
 	case opClose:
-		s.closed[o.c.ch] = true
+		s.closed = append(s.closed, o.c.ch)
 	case opSend:
 		s.res.Sends = append(s.res.Sends, tr.a)
 	case opSelect:
@@ -898,9 +977,10 @@ func (s *sched) apply(tr trans) {
 	}
 	a.parked = false
 	s.running++
-	a.wake <- tr.ca
+	a.wake.put(tr.ca)
 }
 
+//go:norace
 func (s *sched) fireTimer() bool {
 	var best *vtimer
 	for _, tm := range s.timers {
@@ -930,37 +1010,42 @@ func (s *sched) fireTimer() bool {
 
 // Go starts fn as a controlled thread (created parked) when called from a
 // controlled thread, and as a plain goroutine otherwise.
+//
+//go:norace
 func Go(fn func()) {
 	t := cur()
 	if t == nil {
 		go fn()
 		return
 	}
-	s.mu.Lock()
+	s.lk.lock()
 	if t.aborted {
-		s.mu.Unlock()
+		s.lk.unlock()
 		runtime.Goexit()
 	}
 	s.spawn(t, fn, "")
-	s.mu.Unlock()
+	s.lk.unlock()
 }
 
 // GoNamed is Go with a label used in reports.
+//
+//go:norace
 func GoNamed(name string, fn func()) {
 	t := cur()
 	if t == nil {
 		go fn()
 		return
 	}
-	s.mu.Lock()
+	s.lk.lock()
 	if t.aborted {
-		s.mu.Unlock()
+		s.lk.unlock()
 		runtime.Goexit()
 	}
 	s.spawn(t, fn, name)
-	s.mu.Unlock()
+	s.lk.unlock()
 }
 
+//go:norace
 func chanCase(c any, dir int8) Case {
 	v := reflect.ValueOf(c)
 	if v.Kind() != reflect.Chan {
@@ -972,11 +1057,18 @@ func chanCase(c any, dir int8) Case {
 	return Case{dir: dir, ch: v.UnsafePointer(), chv: c, cap: v.Cap()}
 }
 
-func SendCase(c any) Case               { return chanCase(c, dirSend) }
-func RecvCase(c any) Case               { return chanCase(c, dirRecv) }
+//go:norace
+func SendCase(c any) Case { return chanCase(c, dirSend) }
+
+//go:norace
+func RecvCase(c any) Case { return chanCase(c, dirRecv) }
+
+//go:norace
 func DoneCase(ctx context.Context) Case { return Case{dir: dirDone, ctx: ctx} }
 
 // BeforeSend is the scheduling point in front of `c <- v`.
+//
+//go:norace
 func BeforeSend(c any) {
 	if t := cur(); t != nil {
 		t.park(op{kind: opSend, c: chanCase(c, dirSend)})
@@ -985,28 +1077,33 @@ func BeforeSend(c any) {
 
 // AfterSend follows the real send: the sender of a rendezvous waits here until its
 // partner's step is over, so that exactly one thread runs at any time.
+//
+//go:norace
 func AfterSend() {
 	t := cur()
 	if t == nil || !t.rdv {
 		return
 	}
 	t.rdv = false
-	if r := <-t.wake; r == abortSignal {
+	if r := t.wake.get(); r == abortSignal {
 		runtime.Goexit()
 	}
 }
 
+//go:norace
 func BeforeRecv(c any) {
 	if t := cur(); t != nil {
 		t.park(op{kind: opRecv, c: chanCase(c, dirRecv)})
 	}
 }
 
+//go:norace
 func Recv[T any](c <-chan T) T {
 	BeforeRecv(c)
 	return <-c
 }
 
+//go:norace
 func Recv2[T any](c <-chan T) (T, bool) {
 	BeforeRecv(c)
 	v, ok := <-c
@@ -1014,15 +1111,17 @@ func Recv2[T any](c <-chan T) (T, bool) {
 }
 
 // RecvDone is `<-ctx.Done()`.
+//
+//go:norace
 func RecvDone(ctx context.Context) struct{} {
 	if t := cur(); t != nil {
 		t.park(op{kind: opDone, c: Case{dir: dirDone, ctx: ctx}})
-		return struct{}{}
 	}
 	<-ctx.Done()
 	return struct{}{}
 }
 
+//go:norace
 func Close[T any](c chan<- T) {
 	if t := cur(); t != nil {
 		t.park(op{kind: opClose, c: chanCase(c, dirSend)})
@@ -1032,6 +1131,8 @@ func Close[T any](c chan<- T) {
 
 // Select is the scheduling point of a select statement; it returns the index of the
 // case to execute (which is then guaranteed not to block) or -1 for default.
+//
+//go:norace
 func Select(hasDefault bool, cases ...Case) int {
 	t := cur()
 	if t == nil {
@@ -1043,6 +1144,8 @@ func Select(hasDefault bool, cases ...Case) int {
 // passThroughSelect is used outside an exploration: it waits with reflect.Select on
 // readiness only (it must not consume), so it polls. Only used by free-running
 // reference code paths, never by a controlled thread.
+//
+//go:norace
 func passThroughSelect(hasDefault bool, cases []Case) int {
 	for {
 		for i := range cases {
@@ -1080,6 +1183,8 @@ func passThroughSelect(hasDefault bool, cases []Case) int {
 
 // WaitIdle blocks the caller until no other thread has an enabled transition: an
 // exact quiescence test. Virtual timers do not fire while a thread waits idle.
+//
+//go:norace
 func WaitIdle() {
 	if t := cur(); t != nil {
 		t.park(op{kind: opIdle})
@@ -1087,6 +1192,8 @@ func WaitIdle() {
 }
 
 // Yield is an explicit scheduling point.
+//
+//go:norace
 func Yield() {
 	if t := cur(); t != nil {
 		t.park(op{kind: opYield})
@@ -1094,13 +1201,15 @@ func Yield() {
 }
 
 // Alive lists the other threads that have not finished, with what they are parked at.
+//
+//go:norace
 func Alive() []string {
 	t := cur()
 	if t == nil {
 		return nil
 	}
-	s.mu.Lock()
-	defer s.mu.Unlock()
+	s.lk.lock()
+	defer s.lk.unlock()
 	var r []string
 	for _, o := range s.threads {
 		if o != t && !o.done {
@@ -1111,13 +1220,15 @@ func Alive() []string {
 }
 
 // AliveCount is len(Alive()) without the descriptions.
+//
+//go:norace
 func AliveCount() int {
 	t := cur()
 	if t == nil {
 		return 0
 	}
-	s.mu.Lock()
-	defer s.mu.Unlock()
+	s.lk.lock()
+	defer s.lk.unlock()
 	n := 0
 	for _, o := range s.threads {
 		if o != t && !o.done {
@@ -1128,18 +1239,22 @@ func AliveCount() int {
 }
 
 // Logf appends to the execution's observation log.
+//
+//go:norace
 func Logf(format string, a ...any) {
 	if cur() == nil {
 		return
 	}
-	s.mu.Lock()
+	s.lk.lock()
 	s.res.Log = append(s.res.Log, fmt.Sprintf(format, a...))
-	s.mu.Unlock()
+	s.lk.unlock()
 }
 
 // Stamp returns a strictly increasing logical time (one thread runs at a time, so
 // stamp order is real-time order). It is itself a scheduling point, and two stamps
 // never commute, so every relative order of two threads' stamps is explored.
+//
+//go:norace
 func Stamp() int64 {
 	if t := cur(); t != nil {
 		t.park(op{kind: opStamp})
@@ -1149,23 +1264,29 @@ func Stamp() int64 {
 
 // Rendezvous returns the {sender, receiver} thread pairs of all unbuffered channel
 // hand-overs so far in this execution, in order.
+//
+//go:norace
 func Rendezvous() [][2]int {
-	s.mu.Lock()
-	defer s.mu.Unlock()
+	s.lk.lock()
+	defer s.lk.unlock()
 	return append([][2]int(nil), s.res.Rdv...)
 }
 
 // Sends returns the sender thread of every channel send granted so far, in order.
+//
+//go:norace
 func Sends() []int {
-	s.mu.Lock()
-	defer s.mu.Unlock()
+	s.lk.lock()
+	defer s.lk.unlock()
 	return append([]int(nil), s.res.Sends...)
 }
 
 // FiredTimers returns how many virtual timers fired so far in this execution.
+//
+//go:norace
 func FiredTimers() int {
-	s.mu.Lock()
-	defer s.mu.Unlock()
+	s.lk.lock()
+	defer s.lk.unlock()
 	return s.res.Fired
 }
 
@@ -1186,6 +1307,7 @@ type WGState struct {
 	n     int
 }
 
+//go:norace
 func MuLock(st *MuState) {
 	if t := cur(); t != nil {
 		if st.epoch != t.epoch {
@@ -1194,15 +1316,19 @@ func MuLock(st *MuState) {
 		t.park(op{kind: opLock, mu: st})
 	}
 }
+
+//go:norace
 func MuUnlock(st *MuState) {
 	if t := cur(); t != nil {
-		s.mu.Lock()
+		s.lk.lock()
 		if st.epoch == t.epoch {
 			st.held = false
 		}
-		s.mu.Unlock()
+		s.lk.unlock()
 	}
 }
+
+//go:norace
 func RWRLock(st *RWState) {
 	if t := cur(); t != nil {
 		if st.epoch != t.epoch {
@@ -1211,15 +1337,19 @@ func RWRLock(st *RWState) {
 		t.park(op{kind: opRLock, rw: st})
 	}
 }
+
+//go:norace
 func RWRUnlock(st *RWState) {
 	if t := cur(); t != nil {
-		s.mu.Lock()
+		s.lk.lock()
 		if st.epoch == t.epoch && st.readers > 0 {
 			st.readers--
 		}
-		s.mu.Unlock()
+		s.lk.unlock()
 	}
 }
+
+//go:norace
 func RWLock(st *RWState) {
 	if t := cur(); t != nil {
 		if st.epoch != t.epoch {
@@ -1231,26 +1361,32 @@ func RWLock(st *RWState) {
 		t.park(op{kind: opWLock, rw: st})
 	}
 }
+
+//go:norace
 func RWUnlock(st *RWState) {
 	if t := cur(); t != nil {
-		s.mu.Lock()
+		s.lk.lock()
 		if st.epoch == t.epoch {
 			st.writer = false
 		}
-		s.mu.Unlock()
+		s.lk.unlock()
 	}
 }
+
+//go:norace
 func WGAdd(st *WGState, n int) {
 	if t := cur(); t != nil {
-		s.mu.Lock()
+		s.lk.lock()
 		if st.epoch != t.epoch {
 			*st = WGState{epoch: t.epoch}
 		}
 		st.n += n
 		s.touch(unsafe.Pointer(st))
-		s.mu.Unlock()
+		s.lk.unlock()
 	}
 }
+
+//go:norace
 func WGWait(st *WGState) {
 	if t := cur(); t != nil {
 		if st.epoch != t.epoch {
@@ -1277,9 +1413,16 @@ type vtimerCtx struct {
 	nfunc  int
 }
 
-func (c *vtimerCtx) Done() <-chan struct{}       { return c.done }
+//go:norace
+func (c *vtimerCtx) Done() <-chan struct{} { return c.done }
+
+//go:norace
 func (c *vtimerCtx) Deadline() (time.Time, bool) { return c.tm.deadline, true }
-func (c *vtimerCtx) Value(key any) any           { return c.parent.Value(key) }
+
+//go:norace
+func (c *vtimerCtx) Value(key any) any { return c.parent.Value(key) }
+
+//go:norace
 func (c *vtimerCtx) Err() error {
 	c.mu.Lock()
 	defer c.mu.Unlock()
@@ -1287,6 +1430,8 @@ func (c *vtimerCtx) Err() error {
 }
 
 // AfterFunc: see context.AfterFunc; f runs synchronously in the thread that ends c.
+//
+//go:norace
 func (c *vtimerCtx) AfterFunc(f func()) (stop func() bool) {
 	c.mu.Lock()
 	defer c.mu.Unlock()
@@ -1306,6 +1451,7 @@ func (c *vtimerCtx) AfterFunc(f func()) (stop func() bool) {
 	}
 }
 
+//go:norace
 func (c *vtimerCtx) finish(err error) {
 	c.mu.Lock()
 	if c.err != nil {
@@ -1327,6 +1473,7 @@ func (c *vtimerCtx) finish(err error) {
 	}
 }
 
+//go:norace
 func wrapCancel(ctx context.Context, cancel context.CancelFunc) context.CancelFunc {
 	return func() {
 		if t := cur(); t != nil && ctx.Err() == nil {
@@ -1338,6 +1485,8 @@ func wrapCancel(ctx context.Context, cancel context.CancelFunc) context.CancelFu
 
 // CtxErr is `ctx.Err()`: a scheduling point, because the answer depends on whether a
 // cancel of ctx (or of an ancestor) has already happened.
+//
+//go:norace
 func CtxErr(ctx context.Context) error {
 	if t := cur(); t != nil && donePtr(ctx) != nil {
 		t.park(op{kind: opCtxErr, c: Case{dir: dirDone, ctx: ctx}})
@@ -1345,21 +1494,24 @@ func CtxErr(ctx context.Context) error {
 	return ctx.Err()
 }
 
+//go:norace
 func WithCancel(parent context.Context) (context.Context, context.CancelFunc) {
 	ctx, cancel := context.WithCancel(parent)
 	if cur() == nil {
 		return ctx, cancel
 	}
-	s.mu.Lock()
+	s.lk.lock()
 	s.registerCtx(ctx, parent)
-	s.mu.Unlock()
+	s.lk.unlock()
 	return ctx, wrapCancel(ctx, cancel)
 }
 
 // VNow is the virtual wall clock: it only advances when a virtual timer fires.
+//
+//go:norace
 func VNow() time.Time {
-	s.mu.Lock()
-	defer s.mu.Unlock()
+	s.lk.lock()
+	defer s.lk.unlock()
 	return s.vnow
 }
 
@@ -1373,25 +1525,27 @@ type deadlineCtx struct {
 	deadline time.Time
 }
 
+//go:norace
 func (c *deadlineCtx) Deadline() (time.Time, bool) { return c.deadline, true }
 
+//go:norace
 func WithDeadline(parent context.Context, d time.Time) (context.Context, context.CancelFunc) {
 	t := cur()
 	if t == nil {
 		return context.WithDeadline(parent, d)
 	}
 	root := &vtimerCtx{parent: parent, done: make(chan struct{}), funcs: map[int]func(){}}
-	s.mu.Lock()
+	s.lk.lock()
 	tm := &vtimer{deadline: d, cancel: func() { root.finish(context.DeadlineExceeded) }, seq: s.timerSeq}
 	root.tm = tm
 	s.timerSeq++
 	s.timers = append(s.timers, tm)
-	s.mu.Unlock()
+	s.lk.unlock()
 	inner, icancel := context.WithCancel(root) // registers with root through its AfterFunc hook
 	ctx := &deadlineCtx{Context: inner, deadline: d}
-	s.mu.Lock()
+	s.lk.lock()
 	s.registerCtx(ctx, parent)
-	s.mu.Unlock()
+	s.lk.unlock()
 	if parent.Done() != nil {
 		// a cancellable parent: follow it (the standard library runs this callback on its own
 		// goroutine; harnesses use background parents for timed contexts)
@@ -1401,13 +1555,14 @@ func WithDeadline(parent context.Context, d time.Time) (context.Context, context
 		if t := cur(); t != nil && ctx.Err() == nil {
 			t.park(op{kind: opCancel, c: Case{ctx: ctx}})
 		}
-		s.mu.Lock()
+		s.lk.lock()
 		tm.stopped = true
-		s.mu.Unlock()
+		s.lk.unlock()
 		icancel()
 	}
 }
 
+//go:norace
 func WithTimeout(parent context.Context, d time.Duration) (context.Context, context.CancelFunc) {
 	if cur() == nil {
 		return context.WithTimeout(parent, d)
@@ -1422,12 +1577,15 @@ var epochCounter uint64
 // RunOnce runs body as the root thread under the given decision prefix (choice 0
 // afterwards) and returns when the execution is over and every goroutine it
 // started has gone.
+//
+//go:norace
 func RunOnce(prefix []int, describe bool, body func()) *ExecResult {
 	return runOnce(prefix, describe, false, body)
 }
 
+//go:norace
 func runOnce(prefix []int, describe, sleepMode bool, body func()) *ExecResult {
-	s.mu.Lock()
+	s.lk.lock()
 	epochCounter++
 	s.epoch = epochCounter
 	s.threads = s.threads[:0]
@@ -1436,7 +1594,7 @@ func runOnce(prefix []int, describe, sleepMode bool, body func()) *ExecResult {
 	s.lastRan = [2]int{0, -1}
 	s.timers = nil
 	s.timerSeq = 0
-	s.closed = map[unsafe.Pointer]bool{}
+	s.closed = s.closed[:0]
 	s.prefix = prefix
 	s.res = &ExecResult{}
 	s.finished = false
@@ -1445,18 +1603,18 @@ func runOnce(prefix []int, describe, sleepMode bool, body func()) *ExecResult {
 	s.describe = describe
 	s.vnow = time.Unix(1_000_000, 0)
 	s.sleepMode = sleepMode
-	s.ctxNodes = map[unsafe.Pointer]*ctxNode{}
+	s.ctxNodes = s.ctxNodes[:0]
 	s.sleep = s.sleep[:0]
 	s.pendSleep = s.pendSleep[:0]
 	s.havePend = false
-	active.Store(true)
+	active.set(true)
 	root := s.spawn(nil, body, "root")
 	root.parked = false
 	s.running = 1
-	root.wake <- 0
+	root.wake.put(0)
 	done := s.doneCh
 	res := s.res
-	s.mu.Unlock()
+	s.lk.unlock()
 
 	watchdog := time.NewTimer(60 * time.Second)
 	select {
@@ -1466,15 +1624,15 @@ func runOnce(prefix []int, describe, sleepMode bool, body func()) *ExecResult {
 	}
 	// tear down one thread at a time: aborted threads run their deferred calls, and
 	// those must not run concurrently with each other.
-	s.mu.Lock()
+	s.lk.lock()
 	ths := append([]*thread(nil), s.threads...)
-	s.mu.Unlock()
+	s.lk.unlock()
 	for _, t := range ths {
-		s.mu.Lock()
+		s.lk.lock()
 		d := t.done
-		s.mu.Unlock()
+		s.lk.unlock()
 		if !d {
-			t.wake <- abortSignal
+			t.wake.put(abortSignal)
 		}
 		select {
 		case <-t.exited:
@@ -1484,11 +1642,13 @@ func runOnce(prefix []int, describe, sleepMode bool, body func()) *ExecResult {
 	}
 	s.all.Wait()
 	watchdog.Stop()
-	active.Store(false)
+	active.set(false)
 	res.Threads = len(s.threads)
 	return res
 }
 
 // SetWriterPreference turns on the RWMutex writer-pending model (Lock becomes two
 // points: announce, acquire; a pending writer blocks new readers, like Go's RWMutex).
+//
+//go:norace
 func SetWriterPreference(on bool) { s.writerPref = on }
